@@ -5,6 +5,7 @@ V = os.path.dirname(os.path.dirname(os.path.abspath(__file__)))
 sys.path.insert(0, V)
 base = json.load(open(os.path.join(V, "tools", "manifest_base.json")))
 checks, claimed = [], set()
+integrated = set(open(os.path.join(V, "tools", "integrated.txt")).read().split())
 for p in sorted(glob.glob(os.path.join(V, "vlib", "props", "c[0-9]*.py"))):
     mod = importlib.import_module("vlib.props." + os.path.basename(p)[:-3])
     spec = mod.SPEC
@@ -12,6 +13,8 @@ for p in sorted(glob.glob(os.path.join(V, "vlib", "props", "c[0-9]*.py"))):
     if not m:
         continue
     pid = spec["id"]
+    if pid not in integrated:
+        continue
     claimed.add(pid)
     checks.append({
         "property_id": pid,
